@@ -22,7 +22,8 @@
    What stays outside the theorems: struct-mapped objects, `any` values below a one-of on the Validate /
    Serialize side (the pre-check reads them by rules of its own), and - for Validate - values that are
    not in native form at all; those are the direct check's and the correspondence's business (family
-   c17, paths compared). *)
+   c17, paths compared; struct-mapped objects: family c17struct, paths compared with Schema/XOps.v
+   through Interp/RunC17.run_c17x_case). *)
 From Coq Require Import Permutation.
 From Verif Require Import Base.Prelude Base.Str Base.Float Base.GoVal
   Schema.Regex Schema.Units Schema.FloatUnits Schema.Syntax Schema.Ops Generated.Tables
